@@ -51,6 +51,15 @@ CHECKS = {
              "every observation (plus random attempt streams up to 2^31-1 and the real retrying client against a loopback server).",
         note="Trusted: TLC, math/big projection of waits to order relations, 2 s tolerance on HTTP dates; attempts=0 (retry until success) is outside the statement.",
         technique="TLA+ specs + TLC exhaustive; exhaustive scenario replay; TLC trace validation of recorded Apply results"),
+    "C16": dict(
+        category="model_checking", design_ref="DESIGN.md 5/C16",
+        text="SharedCache.tla models the remote entry (package chunks tagged with versions, hash side file, lock) and Store / Fetch at the grain of the calls that mutate or read it, "
+             "with a crash at any step and an ignorable side-file failure; TLC checks that a successful Fetch installs one complete stored version and that a successful Store is what "
+             "the next Fetch returns, and (sensitivity) finds the stale-hash counterexample when the failure is ignored. On the real caches (mutable and immutable, MemMapFs and OS) "
+             "Store is interrupted at every backend call by an injected error or by the death of the client, the entry is stale-cleaned and fetched; concurrent clients run under gated "
+             "random schedules; TLC judges all recorded observations with the same monitor.",
+        note="Trusted: TLC, the gate's fault injection at the afero.Fs boundary, tree comparison of the destination with the stored versions; MemMapFs breakdowns void a scenario.",
+        technique="TLA+ spec + TLC exhaustive; fault/crash sweep over every backend call of the real Store; TLC trace validation"),
     "C17": dict(
         category="model_checking", design_ref="DESIGN.md 5/C17",
         text="LockFileTimed.tla (discrete time, period P, writer lateness J, death at every instant) is checked by TLC for live-never-stale and dead-becomes-stale, "
